@@ -6,6 +6,7 @@ import (
 	"go/constant"
 	"go/token"
 	"go/types"
+	"golang.org/x/tools/go/packages"
 	"regexp"
 	"sort"
 	"strings"
@@ -203,13 +204,39 @@ func (e *Env) RMapsAllocated() {
 	rf := load.FuncDecl(pkg, "FileRestorer", "RestoreFile")
 	reset := map[string]bool{}
 	if rf != nil {
-		for _, s := range rf.Body.List {
-			n := stmtNorm(c, s)
-			if strings.HasPrefix(n, "r.") && strings.Contains(n, " = map[") && strings.HasSuffix(n, "{}") {
-				reset[strings.TrimPrefix(strings.SplitN(n, " ", 2)[0], "r.")] = true
-			}
+		// in RestoreFile itself or in a method it calls directly (a reset helper)
+		for _, body := range e.withDirectCallees(pkg, rf) {
+			ast.Inspect(body, func(n ast.Node) bool {
+				as, ok := n.(*ast.AssignStmt)
+				if !ok || len(as.Lhs) != len(as.Rhs) {
+					return true
+				}
+				for i, l := range as.Lhs {
+					se, ok := l.(*ast.SelectorExpr)
+					if !ok {
+						continue
+					}
+					v, ok := pkg.TypesInfo.Uses[se.Sel].(*types.Var)
+					if !ok || !v.IsField() {
+						continue
+					}
+					if _, isMap := v.Type().Underlying().(*types.Map); !isMap {
+						continue
+					}
+					switch r := ast.Unparen(as.Rhs[i]).(type) {
+					case *ast.CompositeLit:
+						reset[v.Name()] = true
+					case *ast.CallExpr:
+						if id, ok := r.Fun.(*ast.Ident); ok && id.Name == "make" {
+							reset[v.Name()] = true
+						}
+					}
+				}
+				return true
+			})
 		}
 	}
+	_ = c
 	for i := 0; i < rst.NumFields(); i++ {
 		f := rst.Field(i)
 		if _, ok := f.Type().Underlying().(*types.Map); !ok || f.Name() == "Alias" {
@@ -221,14 +248,23 @@ func (e *Env) RMapsAllocated() {
 	nm := load.FuncDecl(pkg, "", "newMap")
 	cnt := 0
 	if nm != nil {
-		ast.Inspect(nm.Body, func(n ast.Node) bool {
-			if cl, ok := n.(*ast.CompositeLit); ok {
-				if _, isMap := pkg.TypesInfo.TypeOf(cl).Underlying().(*types.Map); isMap {
-					cnt++
+		for _, body := range e.withDirectCallees(pkg, nm) {
+			ast.Inspect(body, func(n ast.Node) bool {
+				switch x := n.(type) {
+				case *ast.CompositeLit:
+					if _, isMap := pkg.TypesInfo.TypeOf(x).Underlying().(*types.Map); isMap {
+						cnt++
+					}
+				case *ast.CallExpr:
+					if id, ok := x.Fun.(*ast.Ident); ok && id.Name == "make" && len(x.Args) >= 1 {
+						if _, isMap := pkg.TypesInfo.TypeOf(x.Args[0]).Underlying().(*types.Map); isMap {
+							cnt++
+						}
+					}
 				}
-			}
-			return true
-		})
+				return true
+			})
+		}
 	}
 	e.Run.Check("R-NOPANIC", "newMap allocates the six node/object/scope maps", "", cnt == 6, fmt.Sprintf("%d map literals", cnt))
 	// appendDecoration / appendNewLine: the per-node inner map is allocated on first use — in the
@@ -699,4 +735,28 @@ func objectContentsDefault(info *types.Info, fd *ast.FuncDecl, call *ast.CallExp
 		return true
 	})
 	return found
+}
+
+// withDirectCallees: the body of fd and the bodies of the same-package functions it calls directly.
+func (e *Env) withDirectCallees(pkg *packages.Package, fd *ast.FuncDecl) []*ast.BlockStmt {
+	out := []*ast.BlockStmt{fd.Body}
+	seen := map[*ast.FuncDecl]bool{fd: true}
+	ast.Inspect(fd.Body, func(n ast.Node) bool {
+		call, ok := n.(*ast.CallExpr)
+		if !ok {
+			return true
+		}
+		fn := calleeFunc(pkg.TypesInfo, call)
+		if fn == nil || fn.Pkg() != pkg.Types {
+			return true
+		}
+		for _, d := range load.AllFuncDecls(pkg) {
+			if pkg.TypesInfo.Defs[d.Name] == types.Object(fn) && d.Body != nil && !seen[d] {
+				seen[d] = true
+				out = append(out, d.Body)
+			}
+		}
+		return true
+	})
+	return out
 }
